@@ -240,7 +240,8 @@ bool Parser::parseExtGNU_StatementExpression_AtFirst(ExpressionSyntax *&expr)
     gnuExpr->openParenTkIdx_ = consume();
 
     StatementSyntax* statement = nullptr;
-    parseCompoundStatement_AtFirst(statement, StatementContext::None);
+    if (!parseCompoundStatement_AtFirst(statement, StatementContext::None))
+        return false;
     if (statement->asCompoundStatement())
         gnuExpr->stmt_ = statement->asCompoundStatement();
     return matchOrSkipTo(SyntaxKind::CloseParenToken, &gnuExpr->closeParenTkIdx_);
